@@ -733,7 +733,10 @@ class Ev:
         params = [a.arg for a in fn.args.args]
         kwonly = [a.arg for a in fn.args.kwonlyargs]
         defaults = fn.args.defaults
-        is_gen = any(isinstance(x, (ast.Yield, ast.YieldFrom)) for x in _own_nodes(fn))
+        is_gen = getattr(fn, "_sa_is_gen", None)
+        if is_gen is None:
+            is_gen = any(isinstance(x, (ast.Yield, ast.YieldFrom)) for x in _own_nodes(fn))
+            fn._sa_is_gen = is_gen  # type: ignore[attr-defined]  # a fact about the syntax tree, computed once
         outer = self.env if base_env is None else base_env
 
         vararg = fn.args.vararg.arg if fn.args.vararg else None
